@@ -340,6 +340,8 @@ fn is_global_ipv4(addr: &Ipv4Addr) -> bool {
             && !addr.is_link_local()
             && !addr.is_broadcast()
             && !addr.is_documentation()
+            // benchmarking (`198.18.0.0/15`)
+            && !(addr.octets()[0] == 198 && (addr.octets()[1] & 0xfe) == 18)
             // shared
             && !(addr.octets()[0] == 100 && (addr.octets()[1] & 0b1100_0000 == 0b0100_0000)) &&!(addr.octets()[0] & 240 == 240 && !addr.is_broadcast())
             // addresses reserved for future protocols (`192.0.0.0/24`)
